@@ -467,6 +467,45 @@ func init() {
 		return nil
 	}
 
+	// sort.Slice / sort.SliceStable go through reflection (reflectlite.Swapper); modelled as a
+	// stable insertion sort that calls the real less closure and swaps the real slots.  For
+	// elements that compare equal the order may differ from the library's pdqsort (sort.Slice
+	// promises none); less results that are symbolic fork the path.
+	sortSlice := func(th *Thread, fn *ssa.Function, args []Value) Value {
+		m := th.m
+		ifc, ok := args[0].(Iface)
+		if !ok {
+			m.unsupported("sort.Slice on a non-interface argument")
+		}
+		sl, ok := ifc.V.(Slice)
+		if !ok {
+			if ifc.V == nil {
+				return nil
+			}
+			m.unsupported(fmt.Sprintf("sort.Slice on %T", ifc.V))
+		}
+		less := args[1]
+		k := func(i int) *Term { return m.ts.Const(64, uint64(i)) }
+		for i := 1; i < len(sl); i++ {
+			for j := i; j > 0; j-- {
+				r := th.call(th.fr, 0, less, []Value{k(j), k(j - 1)})
+				c, ok := r.(*Term)
+				if !ok {
+					m.unsupported("sort.Slice: less did not return a bool")
+				}
+				if !m.decide(c) {
+					break
+				}
+				th.onWrite(&sl[j])
+				th.onWrite(&sl[j-1])
+				sl[j], sl[j-1] = sl[j-1], sl[j]
+			}
+		}
+		return nil
+	}
+	I["sort.Slice"] = sortSlice
+	I["sort.SliceStable"] = sortSlice
+
 	// strconv on concrete numbers: evaluated natively
 	I["strconv.FormatFloat"] = func(th *Thread, fn *ssa.Function, args []Value) Value {
 		m := th.m
